@@ -147,7 +147,7 @@ PROPS = {
     },
     "C11": {
         "lean_modules": ["TemporalModel.Props.C11"],
-        "suites": ["c11"],
+        "suites": ["c11", "api"],
         "level_text": "Proof (writers and canonical readers on character lists, Model/Format.lean): C11_digits_roundtrip (a zero-"
                       "padded field of any width reads back as the number), C11_year_shape / C11_year_roundtrip (four digits for "
                       "0..9999, a sign and six digits otherwise; every such year reads back), C11_date_roundtrip (every date text "
@@ -323,7 +323,7 @@ PROPS = {
     },
     "C17": {
         "lean_modules": ["TemporalModel.Props.C17"],
-        "suites": ["c17"],
+        "suites": ["c17", "api"],
         "level_text": "Proof: C17_date_with_spec (PlainDate::with = the reference merge for every receiver, all 2^k subsets of "
                       "supplied fields, every field value, both overflow modes: supplied field else receiver's; month/monthCode "
                       "agreement; clamp under constrain, RangeError under reject), C17_time_with_spec, C17_date_with_self / "
@@ -382,7 +382,8 @@ PROPS = {
     },
     "C02": {
         "lean_modules": ["TemporalModel.Props.C02"],
-        "suites": ["c02", "c04", "c05", "c06", "c09", "c17", "c18"],
+        "suites": ["c02", "c04", "c05", "c06", "c09", "c17", "c18", "api"],
+        "spec_ops": {"pdt_from_pd": "pdt_from_pd_spec"},
         "extra_profiles": ["release"],
         "level_text": "Proof: C02_date_results / C02_date_time_results / C02_instant_results / C02_time_results / "
                       "C02_duration_results / C02_year_month_results show that every value a modelled constructor, add, subtract, "
